@@ -157,6 +157,9 @@ class Orchestrator:
                 and not overwrite_fitted_strategies
                 and (fitted_stategy_exists or not save_fitted_strategies)
             ):
+                # register the existing results, so that they can be loaded from
+                # a results object that did not itself compute them
+                self.results._append_key(strategy.name, dataset.name)
                 log.warn(
                     f"Skipping strategy: {strategy.name} on CV-fold: "
                     f"{cv_fold} of dataset: {dataset.name}"
